@@ -3,50 +3,34 @@
    Model: Loader/Model.v - `build` returns, beside the outcome, the EFFECT LOG: one entry per
    exec.Command(...).Output() of substituteCommands / parseParamValue and one per successful os.Setenv (reads of the
    environment are not effects).  Entry points = option values: LoadYAML / LoadWithoutEval (noEval), LoadMetadata
-   (noEval, metadataOnly), Load (evaluating).  Tie to the code: tools/props/C19.py (canaries in every string-valued
-   field through every non-executing entry point of /repo, compared with the effect log of the model). *)
+   (noEval, metadataOnly), Load (evaluating).  The model follows the REPAIRED code (/repo fix commits 4348d0d F19a,
+   a55d876 F19b): the full statement holds, with `noEval` as its only premise.
+   Tie to the code: tools/props/C19.py (canaries in every string-valued field through every non-executing entry
+   point of /repo, compared with the effect log of the model). *)
 From Coq Require Import List ZArith String.
 Import ListNotations.
 From BD.Loader Require Import Str Model Decode Proofs DecodeProofs LoadProofs Witness.
 Open Scope string_scope.
 Open Scope list_scope.
 
-(* Full statement (FALSE of the pinned code):
-     forall o d base e, o_noEval o = true -> effects (build cron sig_ok tokenize sh o d base e) = [].
-   Holds when the parameter string has no token (F19b: parser.go:134 exports $1..$n whatever the options say) and -
-   unless only the metadata is loaded - logDir holds no command substitution after expansion in the loader's
-   environment (F19a: builder.go:259 substitutes unconditionally).  Then nothing is executed, nothing is exported and
-   the environment is what it was. *)
-Theorem C19_no_effects_partial :
+(* for ALL definitions, options, base environments and initial environments: under noEval nothing is executed,
+   nothing is exported and the environment is what it was *)
+Theorem C19_no_effects :
   forall (cron : string -> cronv) (sig_ok : string -> bool) (tokenize : string -> list (string * string))
          (sh : string -> option string) (o : opts) (d : definition) (base : list string) (e : envt),
   o_noEval o = true ->
-  tokenize (effective_params o d) = [] ->
-  (o_metadataOnly o = true \/ logdir_commands e d = []) ->
   effects (build cron sig_ok tokenize sh o d base e) = [] /\ env_after (build cron sig_ok tokenize sh o d base e) = e.
-Proof. exact build_no_effects_partial. Qed.
-Print Assumptions C19_no_effects_partial.
+Proof. exact build_no_effects. Qed.
+Print Assumptions C19_no_effects.
 
-(* the same over untyped trees (decoding has no effect) *)
-Theorem C19_load_no_effects_partial :
+(* the same over ALL untyped trees (decoding has no effect) *)
+Theorem C19_load_no_effects :
   forall (cron : string -> cronv) (sig_ok : string -> bool) (tokenize : string -> list (string * string))
          (sh : string -> option string) (o : opts) (root : yv) (e : envt),
   o_noEval o = true ->
-  (forall d, decode root = Ok d ->
-     tokenize (effective_params o d) = [] /\ (o_metadataOnly o = true \/ logdir_commands e d = [])) ->
   effects (load_tree cron sig_ok tokenize sh o root e) = [] /\ env_after (load_tree cron sig_ok tokenize sh o root e) = e.
-Proof. exact load_no_effects_partial. Qed.
-Print Assumptions C19_load_no_effects_partial.
-
-Theorem C19_no_effects_refuted_F19a :
-  exists d, d_logDir d = "`touch /x`" /\ effects (buildW oYAML d [] []) = [EExec "touch /x"].
-Proof. exact no_effects_refuted_F19a. Qed.
-Theorem C19_no_effects_refuted_F19b :
-  exists d, d_params d = "p1 p2" /\
-    effects (buildW oYAML d [] []) = [ESetenv "1" "p1"; ESetenv "2" "p2"] /\
-    effects (buildW oMeta d [] []) = [ESetenv "1" "p1"; ESetenv "2" "p2"].
-Proof. exact no_effects_refuted_F19b. Qed.
-Print Assumptions C19_no_effects_refuted_F19b.
+Proof. exact load_no_effects. Qed.
+Print Assumptions C19_load_no_effects.
 
 (* With or without evaluation: the effects of a load that does not crash are those of env, then params, then logDir,
    and of nothing else - steps, handlers, conditions, mail settings and functions are not evaluated at load time. *)
@@ -56,19 +40,30 @@ Theorem C19_eval_effects :
   outcome (build cron sig_ok tokenize sh o d base e) <> Panic ->
   let x1 := buildEnvs sh d o base e in
   let x2 := buildParams tokenize sh d o (env_after x1) in
-  let x3 := buildLogDir sh d (env_after x2) in
+  let x3 := buildLogDir sh d o (env_after x2) in
   effects (build cron sig_ok tokenize sh o d base e) =
   effects x1 ++ effects x2 ++ (if o_metadataOnly o then [] else effects x3).
 Proof. exact build_effects. Qed.
 Print Assumptions C19_eval_effects.
 
-(* the premises are met by the non-trivial example definition (no default parameters, no substitution in logDir):
-   loading it for viewing / listing has no effect, loading it for execution evaluates env *)
-Example C19_premises_satisfiable :
-  tokW (effective_params oYAML example_def) = [] /\ logdir_commands [] example_def = [] /\
-  effects (buildW oYAML example_def [] []) = [] /\ effects (buildW oMeta example_def [] []) = [].
-Proof. exact no_effects_premises_satisfiable. Qed.
-Example C19_eval_example :
-  exists g, outcome (buildW oLoad example_def [] []) = Ok g /\
-            effects (buildW oLoad example_def [] []) = [EExec "echo a"; ESetenv "A" ""; ESetenv "B" "2"].
-Proof. exact (proj2 (proj2 (proj2 (proj2 (proj2 (proj2 (proj2 (proj2 premises_satisfiable)))))))). Qed.
+(* the witnesses of the repaired defects, as positive examples *)
+(* before fix 4348d0d the model answered [EExec "touch /x"] under noEval *)
+Example C19_fixed_F19a :
+  exists d, d_logDir d = "`touch /x`" /\ effects (buildW oYAML d [] []) = [] /\
+            effects (buildW oLoad d [] []) = [EExec "touch /x"].
+Proof. exact fixed_F19a. Qed.
+(* before fix a55d876 the model answered [ESetenv "1" "p1"; ESetenv "2" "p2"] under noEval, even with metadataOnly *)
+Example C19_fixed_F19b :
+  exists d, d_params d = "p1 p2" /\
+    effects (buildW oYAML d [] []) = [] /\ effects (buildW oMeta d [] []) = [] /\
+    effects (buildW oLoad d [] []) = [ESetenv "1" "p1"; ESetenv "2" "p2"].
+Proof. exact fixed_F19b. Qed.
+
+(* non-vacuity: a definition with evaluated env, default parameters and a command substitution in logDir has no effect
+   when viewed / listed, and the effects of env, params, logDir - in this order - when loaded for execution *)
+Example C19_nonvacuous :
+  decode example_tree2 = Ok (def_of example_tree2) /\
+  effects (buildW oYAML (def_of example_tree2) [] []) = [] /\ effects (buildW oMeta (def_of example_tree2) [] []) = [] /\
+  effects (buildW oLoad (def_of example_tree2) [] []) =
+    [EExec "echo a"; ESetenv "A" ""; ESetenv "B" "2"; ESetenv "1" "p1"; ESetenv "2" "X=2"; EExec "echo /tmp/l"].
+Proof. exact no_effects_example. Qed.
